@@ -222,3 +222,134 @@ end SignaloModel.Registry
 #print axioms SignaloModel.Registry.ab_state
 #print axioms SignaloModel.Registry.peak_spec
 #print axioms SignaloModel.Registry.debounce_registry
+
+/-! ### whole runs of the registry instances (what the driver executes) against the `Spec.*` functions -/
+
+namespace SignaloModel.Registry
+open SignaloModel SignaloModel.Classify
+
+variable {α : Type} [Add α] [Sub α] [Mul α] [Div α] [Neg α] [OfNat α 0] [OfNat α 1]
+  [LT α] [DecidableLT α] [BEq α] [Median.POrd α] [Classify.Cmp α]
+
+omit [Add α] [Sub α] [Mul α] [Div α] [Neg α] [OfNat α 0] [OfNat α 1] [LT α] [DecidableLT α] [BEq α]
+  [Median.POrd α] [Classify.Cmp α] in
+theorem take_succ_snoc (xs : List α) (k : Nat) (x : α) (hx : xs[k]? = some x) :
+    xs.take (k + 1) = xs.take k ++ [x] := by
+  rw [List.take_add_one, hx]; rfl
+
+/-- **C13 (EMA) at registry level**: output `k` is the recurrence `y[n] = y[n-1] + (x[n] - y[n-1])·w`, `y[0] = x[0]`,
+evaluated on the first `k+1` samples — for every sample type -/
+theorem ema_registry_correct (w : α) (xs : List α) :
+    ∃ s' ys, (Cfg.ema w).init.run (sing xs) = some (s', sing ys) ∧ ys.length = xs.length ∧
+      ∀ k x, xs[k]? = some x → (ys[k]?).map some = some (Spec.emaRec w (xs.take (k + 1))) := by
+  have hrun := run_of_step (St.ema w) (fun (s : Option α) x => (some (Smooth.emaStep w s x), Smooth.emaStep w s x))
+    (by intro s x; simp [St.filter]) none xs
+  refine ⟨_, _, hrun, stepRun_length _ _ _, ?_⟩
+  intro k x hx
+  rw [stepRun_getElem _ _ _ k x hx, ema_state, take_succ_snoc xs k x hx, emaRec_snoc]
+  rfl
+
+/-- **C14 at registry level**: output `k` is the position of the alpha-beta recurrence on the first `k+1` samples
+(first sample unchanged with zero velocity; then predict, residual, correct) — for every sample type -/
+theorem alphaBeta_registry_correct (a b : α) (xs : List α) :
+    ∃ s' ys, (Cfg.alphaBeta a b).init.run (sing xs) = some (s', sing ys) ∧ ys.length = xs.length ∧
+      ∀ k x, xs[k]? = some x → (ys[k]?).map some = some ((Spec.abRec a b (xs.take (k + 1))).map (·.1)) := by
+  have hrun := run_of_step (St.alphaBeta a b) (Smooth.abStep a b) (by intro s x; simp [St.filter])
+    { velocity := (0 : α), value := none } xs
+  refine ⟨_, _, hrun, stepRun_length _ _ _, ?_⟩
+  intro k x hx
+  rw [stepRun_getElem _ _ _ k x hx, take_succ_snoc xs k x hx, abRec_snoc]
+  obtain ⟨hst, hvel⟩ := ab_state a b (xs.take k)
+  rw [← hst]
+  generalize (stepRun (Smooth.abStep a b) { velocity := (0 : α), value := none } (xs.take k)).1 = s at hvel ⊢
+  obtain ⟨vel, val⟩ := s
+  cases val with
+  | none =>
+    have : vel = 0 := hvel rfl
+    subst this
+    simp [Smooth.abStep, abAbs]
+  | some p => simp [Smooth.abStep, abAbs]
+
+/-- **C15 (differentiate) at registry level**: zero for the first sample, `x[k] - x[k-1]` afterwards -/
+theorem differentiate_registry_correct (xs : List α) :
+    ∃ s' ys, (Cfg.differentiate : Cfg α).init.run (sing xs) = some (s', sing ys) ∧ ys.length = xs.length ∧
+      ∀ k x, xs[k]? = some x → ys[k]? = some (Spec.diffAt (xs.take (k + 1))) := by
+  have hrun := run_of_step St.differentiate
+    (fun (prev : Option α) x => (some x, match prev with | none => (0 : α) | some p => x - p))
+    (by intro s x; cases s <;> rfl) none xs
+  refine ⟨_, _, hrun, stepRun_length _ _ _, ?_⟩
+  intro k x hx
+  rw [stepRun_getElem _ _ _ k x hx, diff_state, take_succ_snoc xs k x hx, ← diff_spec]
+
+/-- **C15 (integrate) at registry level**: the running sum `x[0] + … + x[k]` (left to right) -/
+theorem integrate_registry_correct (xs : List α) :
+    ∃ s' ys, (Cfg.integrate : Cfg α).init.run (sing xs) = some (s', sing ys) ∧ ys.length = xs.length ∧
+      ∀ k x, xs[k]? = some x → ys[k]? = some (Spec.sum (xs.take (k + 1))) := by
+  have hrun := run_of_step St.integrate (fun (acc : α) x => (acc + x, acc + x))
+    (by intro s x; simp [St.filter]) (0 : α) xs
+  refine ⟨_, _, hrun, stepRun_length _ _ _, ?_⟩
+  intro k x hx
+  rw [stepRun_getElem _ _ _ k x hx, int_state, take_succ_snoc xs k x hx, sum_snoc]
+
+/-- **C08 (threshold)**: on exactly when the sample is `>=` the threshold; the configured value is emitted -/
+theorem threshold_registry (t off on x : α) :
+    (St.threshold t [off, on]).filter [x] =
+      some (St.threshold t [off, on], [if Cmp.ge x t then on else off]) := by
+  simp only [St.filter, pick]
+  by_cases h : Cmp.ge x t = true <;> simp [h]
+
+/-- **C08 (Schmitt) at registry level**: the state after a history is the reference automaton's, and the configured
+value for that state is emitted -/
+theorem schmitt_registry_correct (low high off on : α) (xs : List α) :
+    ∃ s' ys, (Cfg.schmitt low high [off, on]).init.run (sing xs) = some (s', sing ys) ∧ ys.length = xs.length ∧
+      ∀ k x, xs[k]? = some x →
+        ys[k]? = some (if Spec.schmittRefRun low high (xs.take (k + 1)) then on else off) := by
+  have hrun := run_of_step (fun st => St.schmitt low high [off, on] st)
+    (fun (st : Bool) x => (schmittStep low high st x, if schmittStep low high st x then on else off))
+    (by
+      intro s x
+      simp only [St.filter, pick]
+      by_cases h : schmittStep low high s x = true <;> simp [h]) false xs
+  refine ⟨_, _, hrun, stepRun_length _ _ _, ?_⟩
+  intro k x hx
+  rw [stepRun_getElem _ _ _ k x hx, take_succ_snoc xs k x hx]
+  have hstate : ∀ l : List α, (stepRun (fun (st : Bool) x => (schmittStep low high st x,
+      if schmittStep low high st x then on else off)) false l).1 = Spec.schmittRefRun low high l := by
+    intro l
+    rw [stepRun_state_foldl]
+    exact schmitt_registry low high l
+  rw [hstate]
+  have : Spec.schmittRefRun low high (xs.take k ++ [x]) =
+      schmittStep low high (Spec.schmittRefRun low high (xs.take k)) x := by
+    rw [← schmitt_registry, ← schmitt_registry, List.foldl_append]
+    rfl
+  rw [this]
+
+/-- **C09 (slopes) at registry level**: flat for the first sample, then by comparison with the predecessor -/
+theorem slopes_registry_correct (o0 o1 o2 : α) (xs : List α) :
+    ∃ s' ys, (Cfg.slopes [o0, o1, o2]).init.run (sing xs) = some (s', sing ys) ∧ ys.length = xs.length ∧
+      ∀ k x, xs[k]? = some x →
+        ys[k]? = some (match Spec.slopeAt (xs.take (k + 1)) with | .rising => o0 | .flat => o1 | .falling => o2) := by
+  have hrun := run_of_step (fun p => St.slopes [o0, o1, o2] p)
+    (fun (p : Option α) x => (some x, match slopeOf p x with | .rising => o0 | .flat => o1 | .falling => o2))
+    (by
+      intro s x
+      simp only [St.filter, pick, slopeIdx]
+      cases slopeOf s x <;> simp) none xs
+  refine ⟨_, _, hrun, stepRun_length _ _ _, ?_⟩
+  intro k x hx
+  rw [stepRun_getElem _ _ _ k x hx, take_succ_snoc xs k x hx, ← slope_spec]
+  have hstate : ∀ l : List α, (stepRun (fun (p : Option α) x => (some x,
+      match slopeOf p x with | .rising => o0 | .flat => o1 | .falling => o2)) none l).1 = l.getLast? := by
+    intro l
+    induction l using snocInd with
+    | nil => rfl
+    | snoc l y _ => rw [stepRun_append]; simp [stepRun]
+  rw [hstate]
+
+end SignaloModel.Registry
+
+#print axioms SignaloModel.Registry.ema_registry_correct
+#print axioms SignaloModel.Registry.alphaBeta_registry_correct
+#print axioms SignaloModel.Registry.schmitt_registry_correct
+#print axioms SignaloModel.Registry.slopes_registry_correct
